@@ -513,6 +513,8 @@ func main() {
 	c.Set("rule", "config x original encoding (canonical / fee in 8-byte form / every d=1 header-form change; thorough: d=2 over container headers) x (a,b) x fee around the exact minimum, plus maxTxSize around the original length; distinct = config x re-encoding class (major type -> form @ depth) x (a,b) x fee position; a rule's rejection counts iff the same rule accepts the same bytes under a=b=0 and a huge maxTxSize (every rule of the era list is called separately)")
 	c.Assume("ed25519/blake2b trusted; the body is re-signed after every re-encoding so the whole list can accept")
 	c.Assume("re-encodings the real decoder rejects are skipped (whether a decoder takes a non-canonical form is not this property)")
+	// free-running -race pass: concurrent callers on their own inputs (state the library shares between calls)
+	c.RaceAudit("c30")
 	c.Finish()
 }
 
